@@ -905,6 +905,14 @@ impl<'a> Checker<'a>
                 continue;
             }
             // no runner invocation for the remaining deliveries
+            // (a delivery whose target is gone "runs zero times": whether the runner is entered for it at all is not the
+            // properties' business, only that whatever it carried is released)
+            let mut i = 0;
+            while i < list.len()
+            {
+                if !self.insts[list[i].target as usize].alive { let d = list.remove(i); self.skip(d, false); } else { i += 1; }
+            }
+            if list.is_empty() { return Ok(()); }
             if list.iter().all(|d| d.optional)
             {
                 for d in list.drain(..) { self.stats.optional_skipped += 1; self.payload_resolve(&d); }
@@ -1255,7 +1263,12 @@ impl<'a> Checker<'a>
                     self.invocation(None, Some((inst, n)))?;
                     if self.postponed.iter().any(|x| x.target == inst && x.seq > before && x.blocked_by != n) { self.stats.nested_replay += 1; }
                 }
-                Some((k, _)) if k == RK_DISCARD => return bail("a leftover postponed command was discarded (only reachable with injected storage faults)"),
+                Some((k, e2)) if k == RK_DISCARD =>
+                {
+                    // runs with an injected storage fault are not judged from the fault on, so this is a live system's command
+                    let who = self.inst_of(e2);
+                    fail!(self, "C02", "postponed-discarded", &["C01", "C09", "C11"], "a postponed command for system entity {e2:#x} (instance {who:?}) was thrown away at the end of the tree instead of being run");
+                }
                 Some((k, e2)) if k == RK_ROOT_EXIT && e2 == e =>
                 {
                     if !root { fail!(self, "C11", "tree-bookkeeping-residue", &["C02"], "a nested system command reset the tree bookkeeping"); }
